@@ -324,6 +324,64 @@ theorem cache_valid_after_add {H : Type} (I : Iface H) (c c' : Container H) (r :
   · intro a ha; rw [this.1] at ha; cases ha
   · intro b hb; rw [this.2] at hb; cases hb
 
+theorem cache_valid_after_parallel_step {H : Type} (I : Iface H) (c : Container H)
+    (hv : CacheValid I c) : CacheValid I (parallelTemperingStep I c).1 := by
+  unfold parallelTemperingStep
+  split
+  · exact hv
+  · exact cacheValid_stepBody I _ (goodSwap_parallel I) c hv
+
+/-- Every container a program can reach through the public API: `new`, `add_qmc_stepper` (when
+accepted), `tempering_step`, `parallel_tempering_step`, and anything that changes configurations,
+cutoffs or the container RNG but no position's frame (`timesteps`, `graph_mut`, `rng_mut`) — in
+**any** order, in particular replicas added between tempering steps. -/
+inductive Reachable {H : Type} (I : Iface H) : Container H → Prop
+  | empty (s : RS) : Reachable I { graphs := [], rng := s, eqA := none, eqB := none, totalSwaps := 0 }
+  | add {c c' : Container H} {r : Replica H} :
+      Reachable I c → addStepper I c r = some c' → Reachable I c'
+  | step {c : Container H} : Reachable I c → Reachable I (temperingStep I c).1
+  | pstep {c : Container H} : Reachable I c → Reachable I (parallelTemperingStep I c).1
+  | evolve {c : Container H} (gs' : List (Replica H)) (s : RS) :
+      Reachable I c → gs'.map Replica.frame = c.graphs.map Replica.frame →
+      Reachable I { c with graphs := gs', rng := s }
+
+/-- On every reachable container the cached flags are exactly what `make_ham_equalities` would
+compute for the *current* ladder (an add clears both caches, a step rebuilds both when either is
+missing). -/
+theorem reachable_cacheValid {H : Type} (I : Iface H) {c : Container H} (h : Reachable I c) :
+    CacheValid I c := by
+  induction h with
+  | empty s => exact ⟨fun a ha => (by cases ha), fun b hb => (by cases hb)⟩
+  | add _ hadd _ => exact cache_valid_after_add I _ _ _ hadd
+  | step _ ih => exact cache_valid_after_step I _ ih
+  | pstep _ ih => exact cache_valid_after_parallel_step I _ ih
+  | evolve gs' s _ hf ih => exact cacheValid_evolve I _ gs' s hf ih
+
+/-- **Every neighbour pair of the current ladder gets exactly one decision per step**, whatever
+interleaving of adds and steps produced the ladder: the decisions of a step on a reachable
+container with `n ≥ 2` replicas are on the lefts `0,2,4,…` and `1,3,5,…` (order by the draw), which
+by `pairs_disjoint` is every `l` with `l + 1 < n` exactly once. -/
+theorem step_pairs_reachable {H : Type} (I : Iface H) {c : Container H} (h : Reachable I c)
+    (hn : 2 ≤ c.graphs.length) :
+    (temperingStep I c).2.map (·.left) =
+      if (c.rng.genBool (1 / 2)).1 then phaseALefts c.graphs.length ++ phaseBLefts c.graphs.length
+      else phaseBLefts c.graphs.length ++ phaseALefts c.graphs.length :=
+  step_pairs I c (reachable_cacheValid I h) hn
+
+/-- … and the number of decisions is `n − 1` -/
+theorem step_decision_count {H : Type} (I : Iface H) {c : Container H} (h : Reachable I c)
+    (hn : 2 ≤ c.graphs.length) : (temperingStep I c).2.length = c.graphs.length - 1 := by
+  have := congrArg List.length (step_pairs_reachable I h hn)
+  simp only [List.length_map] at this
+  rw [this]
+  split <;> simp [phaseALefts, phaseBLefts] <;> omega
+
+/-- on reachable ladders the rayon step is the serial step (except the one-replica ladder) -/
+theorem parallel_step_eq_serial_reachable {H : Type} (I : Iface H) {c : Container H}
+    (h : Reachable I c) (hn : c.graphs.length ≠ 1) :
+    parallelTemperingStep I c = temperingStep I c :=
+  parallel_step_eq_serial I c (reachable_cacheValid I h) hn
+
 /-! ## 9. The edge-count check of `can_swap_managers` (finding F14, fixed) -/
 
 /-- The rule before the fix (zip of the two edge lists, no length comparison) accepted graphs with
